@@ -562,24 +562,27 @@ def r22_bound_kind(ctx):
 def _sign_window(f, mn, mx):
     """min/max variables start at -(MINUTES_IN_HOUR-1) / +(MINUTES_IN_HOUR-1)
     and are narrowed to 0 under hours > 0 / hours < 0 respectively."""
+    from ..flow import alternatives, zero_relations
     hours = f.call_params[0] if f.call_params else "hours"
-    init = {}
-    narrowed = {}
-    for n in walk_no_nested(f.node):
-        if isinstance(n, ast.Assign) and isinstance(n.targets[0], ast.Name):
-            name = n.targets[0].id
-            p = parent(n)
-            if isinstance(p, ast.If) and isinstance(
-                    p.test, ast.Compare) and U(p.test.left) == hours and \
-                    U(p.test.comparators[0]) == "0" and any(
-                        n is b for b in p.body):
-                narrowed[name] = (type(p.test.ops[0]).__name__, U(n.value))
-            elif name in (mn, mx):
-                init[name] = U(n.value)
-    ok_init = "MINUTES_IN_HOUR" in init.get(mn, "") and \
-        "MINUTES_IN_HOUR" in init.get(mx, "")
-    return ok_init and narrowed.get(mn) == ("Gt", "0") and \
-        narrowed.get(mx) == ("Lt", "0")
+
+    def window(name, narrowing):
+        alts = alternatives(f.node, name)
+        if not alts:
+            return False
+        zero = [c for v, c in alts if U(v) == "0"]
+        wide = [c for v, c in alts if "MINUTES_IN_HOUR" in U(v)]
+        if len(zero) + len(wide) != len(alts) or not zero or not wide:
+            return False
+        # 0 exactly under `hours <narrowing> 0`; the wide bound otherwise
+        # (either as the initial value or under the complementary test)
+        if not all((hours, narrowing) in zero_relations(c) for c in zero):
+            return False
+        for c in wide:
+            rel = {r for s_, r in zero_relations(c) if s_ == hours}
+            if narrowing in rel:
+                return False
+        return True
+    return window(mn, ">") and window(mx, "<")
 
 
 # ------------------------------------------------------------------- R33
